@@ -4,8 +4,10 @@ package c05
 import (
 	"fmt"
 	"os"
+	"runtime"
 	"strings"
 	"testing"
+	"time"
 
 	"github.com/akrennmair/updog"
 	"github.com/akrennmair/updog/verifharness/evid"
@@ -27,11 +29,16 @@ type Case struct {
 	Tag     bool // add a unique-per-row column "uid" to explicit rows
 	Reopens []fix.OpenCfg
 	Extra   []model.Expr
+	// Bystanders: before the in-memory writer flushes to a file, valid
+	// indexes of other content exist under names derived from the output name
+	Bystanders bool
+	// Abandon: see abandonOne
+	Abandon bool
 }
 
 func (c *Case) Summary() string {
 	var b strings.Builder
-	fmt.Fprintf(&b, "%s tag=%v opens=%v extra[%d]", c.Data.Summary(), c.Tag, c.Reopens, len(c.Extra))
+	fmt.Fprintf(&b, "%s tag=%v bystander-files=%v abandon-one=%v opens=%v extra[%d]", c.Data.Summary(), c.Tag, c.Bystanders, c.Abandon, c.Reopens, len(c.Extra))
 	return b.String()
 }
 
@@ -70,7 +77,33 @@ func oracle(c *Case) error {
 		}
 	}
 	for w := 0; w < fix.NWriters; w++ {
-		path, ids, err := fix.Build(dir, rows, w)
+		var path string
+		var ids []uint32
+		var err error
+		if c.Bystanders && w == fix.WMemFile {
+			// valid indexes of other content wait under names derived from the
+			// output name (what an interrupted earlier run, an editor or a backup
+			// tool leaves behind); none of it may end up in the new index
+			path = fix.TempPath(dir, "idx-with-bystanders") + ".updog"
+			stale := []model.Row{{"stale": "value"}, {"stale": "other", "left": "over"}}
+			for r := range rows {
+				for k, v := range rows[r] {
+					stale = append(stale, model.Row{k: v + "~stale"})
+					break
+				}
+				if r > 3 {
+					break
+				}
+			}
+			for _, sfx := range []string{".tmp", "~", ".new", ".bak", ".lock"} {
+				if _, err := fix.BuildAt(path+sfx, stale, fix.WMemFile); err != nil {
+					return fmt.Errorf("INFRA: %v", err)
+				}
+			}
+			ids, err = fix.BuildAt(path, rows, w)
+		} else {
+			path, ids, err = fix.Build(dir, rows, w)
+		}
 		if err != nil {
 			return fmt.Errorf("writer %s: build failed: %v", fix.WriterName[w], err)
 		}
@@ -87,7 +120,20 @@ func oracle(c *Case) error {
 			if err != nil {
 				return fmt.Errorf("writer %s: open #%d (%s): %v", fix.WriterName[w], k, oc, err)
 			}
-			perr := fix.ProbeAll(idx, d, fix.ProbeOpts{Unique: uniq, Extra: c.Extra, ExtraGB: gbs})
+			extra := c.Extra
+			if c.Bystanders {
+				// what the bystander files hold must be unknown to the new index
+				extra = append(append([]model.Expr(nil), extra...), model.Eq("stale", "value"), model.Or(model.Eq("left", "over"), model.Eq("stale", "other")))
+				for r := range rows {
+					for k, v := range rows[r] {
+						extra = append(extra, model.Eq(k, v+"~stale"))
+					}
+					if r > 3 {
+						break
+					}
+				}
+			}
+			perr := fix.ProbeAll(idx, d, fix.ProbeOpts{Unique: uniq, Extra: extra, ExtraGB: gbs})
 			cerr := fix.Safe(idx.Close)
 			if perr != nil {
 				return fmt.Errorf("writer %s, open #%d (%s): %v", fix.WriterName[w], k, oc, perr)
@@ -96,9 +142,49 @@ func oracle(c *Case) error {
 				return fmt.Errorf("writer %s, close #%d: %v", fix.WriterName[w], k, cerr)
 			}
 		}
+		if c.Abandon {
+			// two Index objects on one caller-owned bbolt handle; the first is
+			// dropped without Close and the garbage collector runs: the second
+			// must keep answering (an Index does not own a database it was given,
+			// and nothing may be released behind the back of a live one)
+			if err := abandonOne(path, d, uniq); err != nil {
+				return fmt.Errorf("writer %s: %v", fix.WriterName[w], err)
+			}
+		}
 		os.Remove(path)
 	}
 	return nil
+}
+
+func abandonOne(path string, d *model.Data, uniq string) error {
+	return fix.Safe(func() error {
+		db, err := bbolt.Open(path, 0o644, &bbolt.Options{ReadOnly: true})
+		if err != nil {
+			return fmt.Errorf("INFRA: %v", err)
+		}
+		defer db.Close()
+		first, err := updog.OpenIndexFromBoltDatabase(db)
+		if err != nil {
+			return fmt.Errorf("OpenIndexFromBoltDatabase: %v", err)
+		}
+		second, err := updog.OpenIndexFromBoltDatabase(db)
+		if err != nil {
+			return fmt.Errorf("second OpenIndexFromBoltDatabase on the same handle: %v", err)
+		}
+		if _, err := fix.Exec(first, fix.NewQuery(model.Not(model.Eq("no such column", "x")), nil)); err == nil {
+			return fmt.Errorf("query on an unknown column succeeded")
+		}
+		first = nil
+		for i := 0; i < 3; i++ {
+			runtime.GC()
+			time.Sleep(2 * time.Millisecond)
+		}
+		if perr := fix.ProbeAll(second, d, fix.ProbeOpts{Unique: uniq, MaxRows: 300, MaxValues: 300}); perr != nil {
+			return fmt.Errorf("after another Index on the same bbolt handle was dropped (not closed) and the garbage collector ran: %v", perr)
+		}
+		runtime.KeepAlive(second)
+		return nil
+	})
 }
 
 func classify(c *Case) (bool, []string) {
@@ -139,13 +225,16 @@ func run(t interface{ Fatalf(string, ...any) }, c *Case) {
 
 func drawCase(t *rapid.T, o gen.DataOpts) *Case {
 	ds := gen.Dataset(t, o)
-	c := &Case{Data: *ds, Tag: rapid.Bool().Draw(t, "tag")}
+	c := &Case{Data: *ds, Tag: rapid.Bool().Draw(t, "tag"), Bystanders: rapid.IntRange(0, 3).Draw(t, "bystanders") == 0, Abandon: rapid.IntRange(0, 4).Draw(t, "abandon") == 0}
 	rows, _ := c.rows()
 	d := model.NewData(rows)
 	pool := gen.NewLeafPool(d)
 	k := rapid.IntRange(1, 4).Draw(t, "nopen")
 	for i := 0; i < k; i++ {
 		oc := fix.OpenCfg{Preload: rapid.Bool().Draw(t, "preload"), CacheCap: -1}
+		if rapid.IntRange(0, 2).Draw(t, "alias") == 0 {
+			oc.Via = rapid.IntRange(1, fix.NVia-1).Draw(t, "via")
+		}
 		if rapid.IntRange(0, 2).Draw(t, "cache") == 0 {
 			oc.CacheCap = rapid.SampledFrom([]int64{0, 2000, 1 << 22}).Draw(t, "cap")
 		}
@@ -175,7 +264,7 @@ func prelude(t *testing.T, sizes []int) {
 			{Name: "p2", Kind: gen.KPow2, Prefix: "blk"}, // values holding for exactly 1,2,4,...,2^k rows
 			{Name: "b3k", Kind: gen.KDiv, K: 3000},
 		}}}
-		run(t, &Case{Data: spec, Reopens: []fix.OpenCfg{{CacheCap: -1}, {Preload: true, CacheCap: -1}, {CacheCap: 1 << 20}}})
+		run(t, &Case{Data: spec, Reopens: []fix.OpenCfg{{CacheCap: -1}, {Preload: true, CacheCap: -1}, {CacheCap: 1 << 20}, {CacheCap: -1, Via: fix.ViaRelLink}, {Preload: true, CacheCap: -1, Via: fix.ViaLinkUp}}})
 	}
 }
 
